@@ -339,7 +339,7 @@ def run_program(seed, n_steps=40, dirty=False, focus=None):
 FINDINGS = {
     'F-C01-1': 'after a send_headers / push_stream call raised, a later header block from the same endpoint is rejected by the peer (HPACK contexts out of step)',
     'F-C01-2': 'a call that raised changed the state of its stream (closed it, or left it open), so later successful sends on that stream are rejected or dropped by the peer',
-    'F-C01-3': 'several update_settings calls in flight, one of them changing HEADER_TABLE_SIZE: acknowledgements are matched per identifier, not per frame (F-C11-1), so the new table size takes effect too early and the peer\'s next header block is rejected',
+    'F-C01-3': 'several update_settings calls in flight, one of them changing HEADER_TABLE_SIZE or ENABLE_PUSH: acknowledgements are matched per identifier, not per frame (F-C11-1), so the later change takes effect too early and the peer\'s next header block / legitimately sent PUSH_PROMISE is rejected',
     'F-C01-4': 'a server sends DATA / END_STREAM before any response headers: accepted locally, the client raises ProtocolError',
     'F-C01-6': 'a 1xx header list written with an upper-case pseudo-header name (\':STATUS\') is treated as a final response by the sender (is_informational_response runs before normalisation) and as an informational one by the receiver',
     'F-C01-5': 'after a local INITIAL_WINDOW_SIZE decrease made a stream\'s receive window negative (legal, RFC 7540 6.9.2), an empty DATA frame from the peer is a FlowControlError ("window shrunk below 0")',
@@ -363,6 +363,8 @@ def classify(r, script):
             return 'F-C01-5'
     if 'did not shrink table size' in text and sum(1 for s in script if 'update_settings(' in s) >= 2 and any('update_settings({1:' in s for s in script):
         return 'F-C01-3'
+    if 'Received pushed stream' in text and sum(1 for s in script if 'client: update_settings(' in s) >= 2 and any('update_settings({2: 0})' in s for s in script):
+        return 'F-C01-3'      # ENABLE_PUSH = 0 applied by the acknowledgement of an EARLIER frame: a push sent legitimately before the server saw it is refused
     if hdr_raised and ('Error decoding header block' in text or 'duplicate pseudo-header' in text or 'missing mandatory' in text or 'pseudo-header' in text):
         return 'F-C01-1'
     sids = set(re.findall(r'(?:send_headers|push_stream|send_data|end_stream)\((\d+)', ' '.join(raised)))
